@@ -172,6 +172,10 @@ func (m *PublishMessage) Decode(src []byte) (int, error) {
 	// The packet identifier field is only present in the PUBLISH packets where the
 	// QoS level is 1 or 2
 	if m.QoS() != 0 {
+		if len(src[total:]) < 2 {
+			return total, fmt.Errorf("publish/Decode: Insufficient buffer size. Expecting %d, got %d", 2, len(src[total:]))
+		}
+
 		//m.packetId = binary.BigEndian.Uint16(src[total:])
 		m.packetID = src[total : total+2]
 		total += 2
